@@ -38,3 +38,36 @@ Theorem C05_reported : forall U C n ds inv e ev ss ev0,
   has_revoked e = true.
 Proof. exact access_reports_revocation. Qed.
 Print Assumptions C05_reported.
+
+(* ------------------------------------------------------------------ *)
+(* Link integrity (LinkIntegrity.v): over the store DEFINED by the supplied blocks (a block (c, b)
+   has the fields view_block b only when c is exactly the CIDv1 / dag-cbor / sha2-256 CID of b, as
+   delegation.Data() checks), a checker that rejects the link with CID bytes c keeps every
+   delegation whose bytes hash to c out of every returned authorization — whatever other blocks
+   are present, in particular the same bytes re-labelled with a raw / CIDv0 / dag-json CID. *)
+From Ucanto Require Import Varint Cid MessageBytes TokenBytes TokenView ServerBytes LinkIntegrity.
+
+Theorem C05_revocation_names_bytes :
+  forall (mh_digest : N -> N -> bstr -> option bstr) keys valid alg_of blocks C c,
+    let view := view_block lid keys valid alg_of in
+    (forall l p, resolve_proof C l = Some p -> d_link p = l) ->
+    (forall x, In (lid c) (map fst (path_of x)) -> revoked C x = true) ->
+    forall n ds inv a,
+    fst (access (ustore_of mh_digest view blocks) C n ds inv) = AOk a ->
+    forall l, In l (map fst (path_of a)) ->
+    l <> lid c /\
+    exists c' b t, l = lid c' /\ c' <> c /\ In (c', b) blocks /\ block_at blocks c' = Some b /\
+      cid_of mh_digest b = Some c' /\ ustore_of mh_digest view blocks l = Some t /\ t = view b /\
+      (forall b0, cid_of mh_digest b0 = Some c -> b <> b0).
+Proof. exact (fun mh_digest keys valid alg_of => revocation_names_bytes mh_digest (view_block lid keys valid alg_of)). Qed.
+Print Assumptions C05_revocation_names_bytes.
+
+(* every delegation of a returned authorization has its fields from bytes that hash to its link *)
+Theorem C05_authorization_names_bytes :
+  forall (mh_digest : N -> N -> bstr -> option bstr) keys valid alg_of blocks C n ds prfs a,
+    let view := view_block lid keys valid alg_of in
+    P (ustore_of mh_digest view blocks) C n ds prfs a ->
+    forall l, In l (map fst (path_of a)) ->
+    exists t, ustore_of mh_digest view blocks l = Some t /\ names_bytes mh_digest view blocks (mkDlg l []) t.
+Proof. exact (fun mh_digest keys valid alg_of => authorization_names_bytes mh_digest (view_block lid keys valid alg_of)). Qed.
+Print Assumptions C05_authorization_names_bytes.
